@@ -26,7 +26,7 @@ RULE = ('A case is one instruction stream of 30-60 instruction groups executed b
         'Substitution, Save/Load/Pop). Every distinct Proved term is evaluated. distinct_nontrivial = distinct Proved terms evaluated '
         'that contain a binder, a metavariable or a pending substitution.')
 ASSUMPTIONS = ['models are capped at carrier 3 as the property states', 'admissible instances are drawn from a pool of small concrete patterns filtered by the real free-variable/polarity constraints']
-FLOORS = {'quick': {'streams': 1000, 'streams_with_10_ok_steps': 200, 'proved_terms_evaluated': 1000, 'ok_step:inst': 100, 'op:ModusPonens': 500, 'ok_step:imp_refl': 20, 'ok_step:distribute': 20,
+FLOORS = {'quick': {'streams': 1000, 'streams_with_10_ok_steps': 200, 'proved_terms_evaluated': 1000, 'ok_step:inst': 100, 'op:ModusPonens': 500, 'ok_step:imp_refl': 20, 'ok_step:distribute': 20, 'ok_step:pending_gen': 20, 'ok_step:pending_gen_two_step': 10,
                     'ok_step:weaken': 100, 'ok_step:gen': 50, 'ok_step:subst': 50, 'ok_step:save': 100, 'op:Quantifier': 20, 'op:Existence': 20,
                     'op:Load': 100, 'term_with:ex': 50, 'term_with:mu': 50, 'term_with:constrained_mv': 20, 'term_with:es': 10, 'term_with:ss': 10,
                     'model_evaluations': 100000, 'streams_with_theory': 100}}
